@@ -277,9 +277,9 @@ func haAddCrashes(r *kit.Rand, cs *haCase, k int, double bool) {
 // C01
 
 func haCasesC01(c *kit.Ctx) []*haCase {
-	n := c.N(44, 5000)
+	n := c.N(44, 2500)
 	if c.Lane == "race" {
-		n = c.N(24, 250) // race lane: a 10% subsample (the detector slows everything down ~5-10x)
+		n = c.N(24, 50) // race lane: a 2% subsample (the detector slows everything down ~5-10x)
 	}
 	var cases []*haCase
 	for i := 0; i < n; i++ {
@@ -322,10 +322,10 @@ func TestVerifHAC01(t *testing.T) {
 // C02
 
 func haCasesC02(c *kit.Ctx) []*haCase {
-	hits := c.N(3, 10)
-	scheds := c.N(4, 40)
+	hits := c.N(3, 8)
+	scheds := c.N(4, 30)
 	if c.Lane == "race" {
-		hits, scheds = c.N(1, 3), c.N(2, 6) // race lane: a subsample (the detector slows everything down ~5-10x)
+		hits, scheds = c.N(1, 2), c.N(2, 2) // race lane: a subsample (the detector slows everything down ~5-10x)
 	}
 	var cases []*haCase
 	i := 0
@@ -409,7 +409,7 @@ func TestVerifHAC02(t *testing.T) {
 // C03
 
 func haCasesC03(c *kit.Ctx) []*haCase {
-	n := c.N(36, 3000)
+	n := c.N(36, 2000)
 	var cases []*haCase
 	for i := 0; i < n; i++ {
 		var cs *haCase
@@ -484,7 +484,7 @@ func TestVerifHAC03(t *testing.T) {
 // C05
 
 func haCasesC05(c *kit.Ctx) []*haCase {
-	n := c.N(40, 4000)
+	n := c.N(40, 2500)
 	var cases []*haCase
 	for i := 0; i < n; i++ {
 		cs := haGenCase(c, 5, i, "progress")
